@@ -75,6 +75,7 @@ type wireInfo struct {
 }
 
 type connScn struct {
+	baseCtx      context.Context // parent of the calls' contexts (nil: Background)
 	rng          *RNG
 	v            *VConn
 	rc           hrpc.RegionClient
@@ -384,7 +385,11 @@ func (u closingCall) ToProto() proto.Message {
 func (s *connScn) newCall(direct, app bool) *connCall {
 	idx := len(s.calls)
 	row := []byte(fmt.Sprintf("%c-row%d", "am"[idx%2], idx))
-	ctx, cancel := context.WithCancel(context.Background())
+	base := context.Background()
+	if s.baseCtx != nil {
+		base = s.baseCtx
+	}
+	ctx, cancel := context.WithCancel(base)
 	c := &connCall{idx: idx, row: row, direct: direct, app: app, cancel: cancel}
 	var opts []func(hrpc.Call) error
 	if direct {
@@ -590,10 +595,20 @@ func blockedWriteCloseScenario() string {
 // deadlineScenario (C18): two requests are outstanding; the server answers the first one 60 ms
 // after the second was sent and never answers the second. The read deadline on the connection has
 // to stay where the last *request* put it: answers do not push it back.
-func deadlineScenario() string {
+func deadlineScenario() string { return deadlineScenarioCtx(false) }
+
+// deadlineScenarioCtx(true): the same with calls whose own contexts carry a deadline far beyond
+// the read timeout (three hours against one): the read deadline is the connection's business and
+// stays at last request + read timeout.
+func deadlineScenarioCtx(farCtx bool) string {
 	s := newConnScn(NewRNG(1, "deadline"), 1)
 	if s.broken != "" {
 		return "c18 script deadline broken:" + strings.ReplaceAll(s.broken, " ", "_")
+	}
+	if farCtx {
+		ctx, cancel := context.WithTimeout(context.Background(), 3*time.Hour)
+		defer cancel()
+		s.baseCtx = ctx
 	}
 	release := func(kind string) bool {
 		for i := 0; i < 400; i++ {
@@ -658,6 +673,63 @@ func deadlineScenario() string {
 	}
 	res := fmt.Sprintf("c18 script deadline answered=%v aresults=%d armed=%v moved_ms=%d late_ms=%d", answered, len(a.results),
 		!d1.IsZero(), d1.Sub(d0).Milliseconds(), late)
+	go s.rc.Close()
+	settle()
+	for _, g := range s.v.Pending() {
+		s.v.take(g)
+		g.ch <- gateRes{err: errVReset}
+	}
+	return res
+}
+
+// midFrameScenario (C18): the only outstanding request is being answered — the length prefix and
+// a part of the body have arrived — when the server goes silent. The request is still outstanding,
+// so the read deadline must still be armed; when it expires the request fails over.
+func midFrameScenario() string {
+	s := newConnScn(NewRNG(1, "midframe"), 1)
+	if s.broken != "" {
+		return "c18 script midframe broken:" + strings.ReplaceAll(s.broken, " ", "_")
+	}
+	release := func(kind string, r gateRes) bool {
+		for i := 0; i < 400; i++ {
+			settle()
+			for _, g := range s.v.Pending() {
+				if g.kind == kind {
+					s.v.take(g)
+					g.ch <- r
+					return true
+				}
+			}
+			time.Sleep(100 * time.Microsecond)
+		}
+		return false
+	}
+	a := s.newCall(true, false)
+	go s.rc.QueueRPC(a.call)
+	release("write", gateRes{})
+	release("deadline", gateRes{})
+	settle()
+	armed0 := s.v.DeadlineSet()
+	// the length prefix of a 1000-byte response, then ten bytes of it, then nothing
+	fed := release("read", gateRes{data: []byte{0, 0, 3, 0xe8}}) && release("read", gateRes{data: make([]byte, 10)})
+	settle()
+	cleared := false
+	for _, g := range s.v.Pending() {
+		if g.kind == "deadline" {
+			// a deadline operation in the middle of a response
+			cleared = cleared || g.zero
+			s.v.take(g)
+			g.ch <- gateRes{}
+		}
+	}
+	settle()
+	armed1 := s.v.DeadlineSet()
+	// the deadline expires inside the pending Read (if there still is one, that is what happens)
+	release("read", gateRes{err: vtimeout{}})
+	settle()
+	s.observe()
+	res := fmt.Sprintf("c18 script midframe fed=%v armedbefore=%v armedmid=%v clearedmid=%v results=%d class=%s", fed, armed0, armed1, cleared,
+		len(a.results), strings.Join(append([]string{"none"}, a.results...), "+"))
 	go s.rc.Close()
 	settle()
 	for _, g := range s.v.Pending() {
@@ -1247,6 +1319,8 @@ func init() {
 		c18conn(tier, seed, out)
 		if os.Getenv("VERIF_SHARD") == "" {
 			out.Line("%s", deadlineScenario())
+			out.Line("%s", deadlineScenarioCtx(true))
+			out.Line("%s", midFrameScenario())
 			for _, l := range c18ReadTimeoutCases() {
 				out.Line("%s", l)
 			}
